@@ -61,35 +61,96 @@ def evaluate(term, rel_of):
     raise Inconclusive("comparison result built with %s" % k)
 
 
+def _feasible(pairs, sigma):
+    """Is there an assignment of non-NaN values with var_a sigma_k var_b for every pair k?  Union the '=' pairs, then the
+    strict relations must form an acyclic graph on the classes (a strict partial order extends to a linear one)."""
+    parent = {}
+
+    def find(x):
+        parent.setdefault(x, x)
+        while parent[x] != x:
+            parent[x] = parent[parent[x]]
+            x = parent[x]
+        return x
+    for (a, b), r in zip(pairs, sigma):
+        find(a), find(b)
+        if r == "=":
+            parent[find(a)] = find(b)
+    edges = {}
+    for (a, b), r in zip(pairs, sigma):
+        if r == "=":
+            continue
+        x, y = (find(a), find(b)) if r == "<" else (find(b), find(a))
+        if x == y:
+            return False
+        edges.setdefault(x, set()).add(y)
+    state = {}
+
+    def cyc(u):
+        state[u] = 1
+        for v in edges.get(u, ()):
+            if state.get(v) == 1 or (state.get(v) is None and cyc(v)):
+                return True
+        state[u] = 2
+        return False
+    return not any(state.get(u) is None and cyc(u) for u in list(edges))
+
+
 def decide(term, left_slots, right_slots, op):
     """term: boolean term of `left op right`; slots: lists of leaf names in declared order.
-    Returns (ok, detail, n_cases).  Spec: lexicographic order over the slots."""
+    Returns (ok, detail, n_cases).  Spec: lexicographic order over the slots.
+
+    Every atom compares two component variables.  Same-slot atoms (left_i ? right_i) are the n three-valued relations
+    the specification is written in.  An atom comparing a variable with itself is a constant on non-NaN values.  Any
+    other pair of variables is one more three-valued relation; all assignments are enumerated and the infeasible ones
+    (no values realise them) dropped, so a reported disagreement is always realisable."""
     n = len(left_slots)
     lidx = {s: i for i, s in enumerate(left_slots)}
     ridx = {s: i for i, s in enumerate(right_slots)}
     atoms = []
     collect_atoms(term, atoms)
+
+    def var(name):
+        if name in lidx:
+            return ("L", lidx[name])
+        if name in ridx:
+            return ("R", ridx[name])
+        return None
+    pairs = [(("L", i), ("R", i)) for i in range(n)]
+    pidx = {p: i for i, p in enumerate(pairs)}
     amap = {}
     for a in atoms:
         x, y = _leafname(a[2]), _leafname(a[3])
         if x is None or y is None:
             raise Inconclusive("comparison of non-component terms: %s" % ev.show(a))
-        if x in lidx and y in ridx:
-            i, j, flipped = lidx[x], ridx[y], False
-        elif x in ridx and y in lidx:
-            i, j, flipped = lidx[y], ridx[x], True
+        vx, vy = var(x), var(y)
+        if vx is None or vy is None:
+            raise Inconclusive("comparison of something that is not a component of an operand: %s" % ev.show(a))
+        if vx == vy:
+            amap[a] = ("const", None)
+            continue
+        if (vx, vy) in pidx:
+            amap[a] = (pidx[(vx, vy)], False)
+        elif (vy, vx) in pidx:
+            amap[a] = (pidx[(vy, vx)], True)
         else:
-            raise Inconclusive("comparison between components of the same operand: %s" % ev.show(a))
-        if i != j:
-            raise Inconclusive("cross-slot comparison %s (slot %d vs %d): the 3^n abstraction is not complete" % (ev.show(a), i, j))
-        amap[a] = (i, flipped)
-    used = sorted({i for i, _ in amap.values()})
+            pidx[(vx, vy)] = len(pairs)
+            pairs.append((vx, vy))
+            amap[a] = (pidx[(vx, vy)], False)
+    extra = len(pairs) - n
+    if extra > 6:
+        raise Inconclusive("%d cross-slot comparisons: enumeration too large" % extra)
+    used = sorted({i for i, _ in amap.values() if i != "const" and i < n})
     cases = 0
-    for sigma in itertools.product("<=>", repeat=n):
+    for sigma in itertools.product("<=>", repeat=len(pairs)):
+        if extra and not _feasible(pairs, sigma):
+            continue
         cases += 1
 
         def rel_of(a, sigma=sigma):
             i, flipped = amap[a]
+            if i == "const":
+                return REL[a[1]]["="]
             r = sigma[i]
             if flipped:
                 r = FLIP[r]
@@ -97,12 +158,15 @@ def decide(term, left_slots, right_slots, op):
         got = evaluate(term, rel_of)
         # lexicographic spec
         lex = "="
-        for r in sigma:
+        for r in sigma[:n]:
             if r != "=":
                 lex = r
                 break
         want = REL[op][lex]
         if got != want:
-            return False, "with slot relations %s (first differing slot decides: left %s right) the operator returns %s, lexicographic %s gives %s" % (
-                "".join(sigma), lex, got, op, want), cases
+            more = ""
+            if extra:
+                more = "; other relations: " + ", ".join("%s%d %s %s%d" % (a[0], a[1], r, b[0], b[1]) for (a, b), r in zip(pairs[n:], sigma[n:]))
+            return False, "with slot relations %s (first differing slot decides: left %s right)%s the operator returns %s, lexicographic %s gives %s" % (
+                "".join(sigma[:n]), lex, more, got, op, want), cases
     return True, "%d slot-relation assignments agree with the lexicographic order (slots compared: %s of %d)" % (cases, used, n), cases
